@@ -33,6 +33,14 @@ def _case(draw, tier):
     N = len(c["trains"])
     k = draw(st.integers(2, N))
     c["indices"] = list(draw(st.permutations(list(range(N)))))[:k]
+    if draw(st.integers(0, 5)) == 0:
+        # the first selected train ends with a spike exactly on t_end, the second starts
+        # with one exactly on t_start (two valid trains that "touch" when laid end to end)
+        i0, i1 = c["indices"][0], c["indices"][1]
+        if c["t1"] not in c["trains"][i0]:
+            c["trains"][i0] = c["trains"][i0] + [c["t1"]]
+        if c["t0"] not in c["trains"][i1]:
+            c["trains"][i1] = [c["t0"]] + c["trains"][i1]
     c["mrts"] = draw(st.one_of(gen.mrts_for(g), st.just("auto")))
     c["ri"] = draw(st.booleans())
     c["max_tau"] = draw(gen.maxtau_for(g))
@@ -140,6 +148,12 @@ def run_case(case, ctx):
             "%s(a,b,Reconcile=False) vs %s(a,b)" % (name, name))
         cmp("reconcile_off_forms:" + name, r_l2_off, r_ab,
             "%s([a,b],Reconcile=False) vs %s(a,b)" % (name, name))
+        # a list of exactly the two trains, selected in the opposite order = the two
+        # trains passed in the opposite order
+        r_ba = ctx.call(name + "(b,a)", fn, b, a, **kw)
+        r_l2r = ctx.call(name + "([a,b],indices=[1,0])", fn, [a, b], indices=[1, 0], **kw)
+        cmp("swapped_args_vs_two_list_indices:" + name, r_ba, r_l2r,
+            "%s(b,a) vs %s([a,b], indices=[1,0])" % (name, name))
         if not auto:
             r_i2 = ctx.call(name + "(L,indices=[i,j])", fn, sts, indices=idx[:2], **kw)
             cmp("two_args_vs_indices:" + name, r_ab, r_i2,
